@@ -27,7 +27,8 @@ def impl_case(args):
         try:
             o = dict(opts or {})
             probe = bool(o.pop("probe_can", False))
-            out.append(fn(am, events, cfg_opts=o, seed_ctx=ctx_seed(cx), probe_can=probe))
+            hf = bool(o.pop("hook_faults", False))
+            out.append(fn(am, events, cfg_opts=o, seed_ctx=ctx_seed(cx), probe_can=probe, hook_faults=hf))
         except BaseException as exc:  # harness-level failure: make it visible as a disagreement
             out.append([[impl.TS("harness-error"), impl.TS(type(exc).__name__ + ":" + str(exc)[:80])]])
     return out
@@ -100,7 +101,7 @@ def check(cases, name, shard=25, par=14, workers=14, max_tokens=30000):
             runs_total += len(cases[i][2])
             for b in bad:
                 am, engine, runs, opts = cases[i]
-                disagreements.append(dict(component="K-macro-" + engine[0], case=dict(config=am.to_config(**{k: v for k, v in (opts or {}).items() if k != 'probe_can'}), engine=engine,
+                disagreements.append(dict(component="K-macro-" + engine[0], case=dict(config=am.to_config(**{k: v for k, v in (opts or {}).items() if k not in ('probe_can', 'hook_faults')}), engine=engine,
                                           ctx=runs[b][0], events=runs[b][1], case_index=i, run_index=b, opts=opts,
                                           am_b64=__import__('base64').b64encode(__import__('pickle').dumps(am)).decode()),
                                           impl=results[i][b], model="differs (rerun with --replay for the model's trace)",
